@@ -241,6 +241,58 @@ Section BatchLemmas.
     exfalso. apply Hne. symmetry. apply fsub_eq_0. exact H.
   Qed.
 
+  (* cancelling members: if instance i's residual is R and instance j's is -R (R <> 0) and every other member's
+     is zero, the batch accepts exactly when the two positions were given EQUAL weights — which is why the pair
+     sweep of K10 probes the weight generation position by position *)
+  Lemma set_weight_length j a : forall al, length (set_weight j a al) = length al.
+  Proof. induction j as [|j IH]; intros [|x al]; simpl; auto. Qed.
+
+  Lemma set_weight_nth j a : forall al k, nth k (set_weight j a al) f0 = if Nat.eqb k j then (if Nat.ltb j (length al) then a else f0) else nth k al f0.
+  Proof.
+    induction j as [|j IH]; intros [|x al] k; simpl.
+    - destruct k; reflexivity.
+    - destruct k; reflexivity.
+    - destruct k; [reflexivity|]. simpl. destruct (Nat.eqb k j); reflexivity.
+    - destruct k as [|k]; [reflexivity|]. cbn [nth]. rewrite IH. cbn [Nat.eqb].
+      destruct (Nat.eqb k j); [|reflexivity].
+      change (Nat.ltb (S j) (S (length al))) with (Nat.ltb j (length al)). reflexivity.
+  Qed.
+
+  Lemma weighted_sum_vanishes (Gs Hs : list MO) : forall l al,
+    (forall k vp, nth_error l k = Some vp -> nth k al f0 = f0 \/ mega_of Gs Hs vp = m0) ->
+    weighted_sum Gs Hs l al = m0.
+  Proof.
+    induction l as [|vp l IH]; intros [|a al] H; cbn [weighted_sum]; try reflexivity.
+    rewrite IH by (intros k vp' Hn; apply (H (S k) vp' Hn)).
+    destruct (H 0%nat vp eq_refl) as [E|E]; cbn [nth] in E; rewrite E; mring.
+  Qed.
+
+  Theorem cancelling_pair_accepted_iff_equal_weights (Gs Hs : list MO) :
+    forall l alphas i j (R : MO) vi vj,
+      i <> j -> nth_error l i = Some vi -> nth_error l j = Some vj -> length alphas = length l -> R <> m0 ->
+      mega_of Gs Hs vi = R -> mega_of Gs Hs vj = mopp R ->
+      (forall k vp, nth_error l k = Some vp -> k <> i -> k <> j -> mega_of Gs Hs vp = m0) ->
+      (weighted_sum Gs Hs l alphas = m0 <-> nth i alphas f0 = nth j alphas f0).
+  Proof.
+    intros l alphas i j R vi vj Hij Hi Hj Hal HR Mi Mj Mo.
+    assert (Li : (i < length alphas)%nat) by (rewrite Hal; apply nth_error_Some; congruence).
+    assert (Lj : (j < length alphas)%nat) by (rewrite Hal; apply nth_error_Some; congruence).
+    rewrite (weighted_sum_diff Gs Hs l alphas i f0 vi Hi Hal).
+    rewrite (weighted_sum_diff Gs Hs l (set_weight i f0 alphas) j f0 vj Hj) by (rewrite set_weight_length; exact Hal).
+    rewrite weighted_sum_vanishes.
+    2:{ intros k vp Hn. destruct (Nat.eq_dec k i) as [->|Hki]; [|destruct (Nat.eq_dec k j) as [->|Hkj]].
+        - left. rewrite set_weight_nth. destruct (Nat.eqb_spec i j); [contradiction|]. rewrite set_weight_nth, Nat.eqb_refl.
+          destruct (Nat.ltb i (length alphas)); reflexivity.
+        - left. rewrite set_weight_nth, Nat.eqb_refl. destruct (Nat.ltb _ _); reflexivity.
+        - right. apply (Mo k vp Hn Hki Hkj). }
+    rewrite set_weight_nth. destruct (Nat.eqb_spec j i) as [E|_]; [congruence|].
+    rewrite Mi, Mj. split; intros H.
+    - assert (E : (nth i alphas f0 - nth j alphas f0) *s R = m0).
+      { rewrite <- H. mring. }
+      destruct (smul_cancel _ _ E) as [E'|E']; [apply fsub_eq_0; exact E' | contradiction].
+    - rewrite H. mring.
+  Qed.
+
   (* errors: the batch reports the first instance's error, exactly when that instance alone reports it *)
   Theorem batch_first_error cap : forall insts,
     match batch_collect RO cap insts with
